@@ -13,6 +13,7 @@ mod gen_enums;
 mod gen_fsm;
 mod gen_kernels;
 mod gen_panics;
+mod gen_resume;
 mod gen_sasl;
 mod gen_schema;
 mod gen_txn;
@@ -60,6 +61,7 @@ fn main() {
     gen_txn::generate(&mut src, &mut out);
     gen_panics::generate(&mut src, &mut out);
     gen_enums::generate(&mut src, &mut out);
+    gen_resume::generate(&mut src, &mut out);
     gen_schema::generate(&mut src, &mut out, args.get(3).map(Path::new));
 
     for w in &out.written {
